@@ -302,81 +302,35 @@ func runC10(c *Ctx) {
 	foreignBlindUndoRule(c, r6)
 
 	r7 := c.Rule("R7", "a surviving priority log means `undo this transaction's flip`, so it is removed before the commit's obsolete (pre-commit) blobs are deleted: in phase2Commit and in cleanup every call that reaches deleteObsoleteEntries is preceded by one that reaches PriorityLog.Remove", 2)
+	priorityLogBeforeDeletionRule(c, r7)
+
+	r8 := c.Rule("R8", "the in-commit retry keeps the value blobs it staged: refetch-and-merge marks the replayed items as already persisted (so manage does not write their values again), therefore the rollback inside phase1Commit's retry loop is called with rollbackTrackedItemsValues = false", 2)
 	{
-		reachDel := w.callsReaching(kTxDelObsolete)
-		reachRm := w.callsReaching(kPLogRemove)
+		marks := false
+		fm := w.Fn("common.refetchAndMergeClosure")
+		persisted := w.Field("common", "cacheItem", "persisted")
+		for _, fn := range append([]*Func{fm}, w.allLits(fm)...) {
+			for _, ws := range w.writesOf(fn, persisted, true) {
+				if ws.Rhs != nil && isBoolLit(fn.Pkg.TypesInfo, ws.Rhs, true) {
+					marks = true
+				}
+			}
+		}
+		f1 := w.Fn(kTxp1)
+		g1 := w.G(f1)
+		c.Analysed(f1)
 		n := 0
-		for _, k := range []string{kTxp2, "common.Transaction.cleanup"} {
-			f := w.Fn(k)
-			g := w.G(f)
-			c.Analysed(f)
-			dels := g.Find(func(x *GNode) bool { return reachDel(x) || calls(kTxDelObsolete)(x) })
-			if len(dels) == 0 {
+		for _, nc := range g1.callNodes(kTxrb) {
+			// inside a for loop of phase1Commit = the retry path
+			if innermostLoop(g1, nc.n) == nil {
 				continue
 			}
 			n++
-			// a node that reaches both (t.cleanup) is judged inside the callee
-			var strict []*GNode
-			for _, d := range dels {
-				if !(reachRm(d) || calls(kPLogRemove)(d)) {
-					strict = append(strict, d)
-				}
-			}
-			var offs []Offence
-			if false && len(strict) > 0 && k == kTxp2 { // covered by the dedicated phase2Commit obligation below (with the no-handles exemption)
-				offs = g.MustPrecede(func(x *GNode) bool { return reachRm(x) || calls(kPLogRemove)(x) }, func(x *GNode) bool {
-					for _, d := range strict {
-						if x == d {
-							return true
-						}
-					}
-					return false
-				})
-			}
-			// inside a function that itself removes the priority log and deletes: order matters there too
-			if k != kTxp2 {
-				if rms := g.Find(calls(kPLogRemove)); len(rms) > 0 {
-					offs = append(offs, g.MustPrecede(calls(kPLogRemove), func(x *GNode) bool { return calls(kTxDelObsolete)(x) || reachDel(x) })...)
-				} else if len(g.Find(calls(kTxDelObsolete))) > 0 {
-					// the callee deletes but does not remove the log: its callers must have removed it (checked for phase2Commit above)
-					_ = rms
-				}
-			}
-			c.Offences(g, offs, r7, shortKey(k)+": obsolete entries are deleted only after the priority log was removed", f.Decl.Pos(), "PriorityLog().Remove precedes deleteObsoleteEntries",
-				"the pre-commit blobs can be deleted while the priority log still exists: a crash in between makes recovery restore the pre-flip handles (the log says `undo`), whose active ids then name blobs that are already gone - the committed tree no longer loads")
+			okArg := len(nc.cs.Call.Args) == 2 && isBoolLit(f1.Pkg.TypesInfo, nc.cs.Call.Args[1], false)
+			c.Check(!marks || okArg, r8, fmt.Sprintf("phase1Commit: retry rollback #%d keeps the staged value blobs", n), nc.cs.Call.Pos(), "t.rollback(ctx, false)",
+				"the retry's rollback deletes the value blobs the failed attempt wrote, while refetch-and-merge marks the replayed items as already persisted: the next attempt commits nodes whose added items point at deleted blobs - readers fail with `unexpected end of JSON input`", nil)
 		}
-		c.Check(n >= 1, r7, "deletion sites of obsolete entries inventoried", token.NoPos, fmt.Sprintf("%d function(s)", n), "none found", nil)
-		// phase2Commit: its cleanup call is preceded by the priority log removal
-		f2 := w.Fn(kTxp2)
-		g2 := w.G(f2)
-		// no priority log exists when neither updated nor removed handles exist: the path on which both length
-		// tests are false is exempt (cut at the false edge of the last of those tests)
-		info2 := f2.Pkg.TypesInfo
-		updF, remF := w.Field("common", "Transaction", "updatedNodeHandles"), w.Field("common", "Transaction", "removedNodeHandles")
-		emptyTests := g2.condNodes(func(e ast.Expr) bool {
-			hit := false
-			ast.Inspect(e, func(x ast.Node) bool {
-				if sx, ok := x.(ast.Expr); ok {
-					if fv := fieldOfSelector(info2, sx); fv == remF {
-						hit = true
-					}
-				}
-				return !hit
-			})
-			return hit
-		})
-		_ = updF
-		isRm := func(x *GNode) bool {
-			return (reachRm(x) || calls(kPLogRemove)(x)) && !calls("common.Transaction.cleanup")(x)
-		}
-		r := g2.Reach([]int{g2.Entry}, isRm, edgeCut(emptyTests, 2))
-		var offs []Offence
-		for _, x := range g2.Find(calls("common.Transaction.cleanup")) {
-			if r.Seen[x.ID] {
-				offs = append(offs, Offence{x, r.Path(x.ID)})
-			}
-		}
-		c.Offences(g2, offs, r7, "phase2Commit: the priority log is removed before cleanup starts deleting", f2.Decl.Pos(), "a PriorityLog().Remove task precedes t.cleanup (unless no handle was updated or removed)", "cleanup can start deleting obsolete blobs while the priority log of this transaction still exists")
+		c.Check(n >= 1 && marks, r8, "phase1Commit: retry rollback and the persisted mark inventoried", f1.Decl.Pos(), fmt.Sprintf("%d retry rollback call(s), replay marks persisted: %v", n, marks), fmt.Sprintf("retry rollback calls %d, replay marks persisted %v (rule has nothing to decide)", n, marks), nil)
 	}
 
 	r5 := c.Rule("R5", "decode failures on the read path are returned", 2)
@@ -668,4 +622,84 @@ func decodeErrorsRule(c *Ctx, r5 string) {
 		}
 		c.Check(n >= 1, r5, shortKey(k)+": decode sites", f.Decl.Pos(), fmt.Sprintf("%d", n), "no Unmarshal call found", nil)
 	}
+}
+
+// priorityLogBeforeDeletionRule (C10.R7 = C08.R6).
+func priorityLogBeforeDeletionRule(c *Ctx, r7 string) {
+	w := c.W
+
+	reachDel := w.callsReaching(kTxDelObsolete)
+	reachRm := w.callsReaching(kPLogRemove)
+	n := 0
+	for _, k := range []string{kTxp2, "common.Transaction.cleanup"} {
+		f := w.Fn(k)
+		g := w.G(f)
+		c.Analysed(f)
+		dels := g.Find(func(x *GNode) bool { return reachDel(x) || calls(kTxDelObsolete)(x) })
+		if len(dels) == 0 {
+			continue
+		}
+		n++
+		// a node that reaches both (t.cleanup) is judged inside the callee
+		var strict []*GNode
+		for _, d := range dels {
+			if !(reachRm(d) || calls(kPLogRemove)(d)) {
+				strict = append(strict, d)
+			}
+		}
+		var offs []Offence
+		if false && len(strict) > 0 && k == kTxp2 { // covered by the dedicated phase2Commit obligation below (with the no-handles exemption)
+			offs = g.MustPrecede(func(x *GNode) bool { return reachRm(x) || calls(kPLogRemove)(x) }, func(x *GNode) bool {
+				for _, d := range strict {
+					if x == d {
+						return true
+					}
+				}
+				return false
+			})
+		}
+		// inside a function that itself removes the priority log and deletes: order matters there too
+		if k != kTxp2 {
+			if rms := g.Find(calls(kPLogRemove)); len(rms) > 0 {
+				offs = append(offs, g.MustPrecede(calls(kPLogRemove), func(x *GNode) bool { return calls(kTxDelObsolete)(x) || reachDel(x) })...)
+			} else if len(g.Find(calls(kTxDelObsolete))) > 0 {
+				// the callee deletes but does not remove the log: its callers must have removed it (checked for phase2Commit above)
+				_ = rms
+			}
+		}
+		c.Offences(g, offs, r7, shortKey(k)+": obsolete entries are deleted only after the priority log was removed", f.Decl.Pos(), "PriorityLog().Remove precedes deleteObsoleteEntries",
+			"the pre-commit blobs can be deleted while the priority log still exists: a crash in between makes recovery restore the pre-flip handles (the log says `undo`), whose active ids then name blobs that are already gone - the committed tree no longer loads")
+	}
+	c.Check(n >= 1, r7, "deletion sites of obsolete entries inventoried", token.NoPos, fmt.Sprintf("%d function(s)", n), "none found", nil)
+	// phase2Commit: its cleanup call is preceded by the priority log removal
+	f2 := w.Fn(kTxp2)
+	g2 := w.G(f2)
+	// no priority log exists when neither updated nor removed handles exist: the path on which both length
+	// tests are false is exempt (cut at the false edge of the last of those tests)
+	info2 := f2.Pkg.TypesInfo
+	updF, remF := w.Field("common", "Transaction", "updatedNodeHandles"), w.Field("common", "Transaction", "removedNodeHandles")
+	emptyTests := g2.condNodes(func(e ast.Expr) bool {
+		hit := false
+		ast.Inspect(e, func(x ast.Node) bool {
+			if sx, ok := x.(ast.Expr); ok {
+				if fv := fieldOfSelector(info2, sx); fv == remF {
+					hit = true
+				}
+			}
+			return !hit
+		})
+		return hit
+	})
+	_ = updF
+	isRm := func(x *GNode) bool {
+		return (reachRm(x) || calls(kPLogRemove)(x)) && !calls("common.Transaction.cleanup")(x)
+	}
+	r := g2.Reach([]int{g2.Entry}, isRm, edgeCut(emptyTests, 2))
+	var offs []Offence
+	for _, x := range g2.Find(calls("common.Transaction.cleanup")) {
+		if r.Seen[x.ID] {
+			offs = append(offs, Offence{x, r.Path(x.ID)})
+		}
+	}
+	c.Offences(g2, offs, r7, "phase2Commit: the priority log is removed before cleanup starts deleting", f2.Decl.Pos(), "a PriorityLog().Remove task precedes t.cleanup (unless no handle was updated or removed)", "cleanup can start deleting obsolete blobs while the priority log of this transaction still exists")
 }
